@@ -316,8 +316,21 @@ func NewID(id interface{}) (string, error) {
 	// multiple physical lines using the standard C convention of a backslash
 	// immediately preceding a newline character.
 	if strings.HasPrefix(s, `"`) && strings.HasSuffix(s, `"`) {
-		// Strip "\\\n" sequences.
-		s = strings.Replace(s, "\\\n", "", -1)
+		// Strip "\\\n" sequences. A backslash that is itself
+		// escaped does not start one.
+		var b strings.Builder
+		for i := 0; i < len(s); i++ {
+			if s[i] == '\\' && i+1 < len(s) {
+				if s[i+1] == '\n' {
+					i++
+					continue
+				}
+				b.WriteByte(s[i])
+				i++
+			}
+			b.WriteByte(s[i])
+		}
+		s = b.String()
 	}
 
 	// TODO: Add support for concatenated using a '+' operator.
